@@ -29,6 +29,7 @@ func TestSim(t *testing.T) {
 	simrt.Main(t, map[string]simrt.Prop{
 		"C40":     {Run: runSpdy("C40"), Opt: opt},
 		"C25spdy": {Run: runSpdy("C25"), Opt: opt},
+		"C39":     {Run: runC39},
 	})
 }
 
